@@ -235,7 +235,7 @@ func instantiate(r *hx.Rand, key string, isTLS bool) string {
 
 func genLookup(r *hx.Rand, i int) interface{} {
 	n := 1 + r.Intn(12)
-	if n < 4 && r.Chance(2, 3) {
+	if n < 5 && r.Chance(5, 6) {
 		n += 4
 	}
 	var in lookupIn
@@ -256,43 +256,101 @@ func genLookup(r *hx.Rand, i int) interface{} {
 	if r.Chance(2, 3) {
 		fam = append(fam, "")
 	}
-	for k := 0; k < n; k++ {
-		h := r.Pick(fam)
-		if k < len(fam) && r.Chance(1, 2) {
-			h = fam[k] // most hosts of the family get at least one route
-		}
-		src := h
-		if !strings.HasPrefix(h, ":") {
-			src = h + r.Pick(rtPaths)
-			if k < len(fam) && r.Chance(1, 2) {
-				src = h + "/"
+	// about one third of the tables go through deletions and weight changes: half of those from the shared
+	// script generator (every form of `route del` and `route weight`), half from adds with dense tags
+	// followed by one to three deletions aimed at what was added (by tags, by service and tags, by service,
+	// by service and prefix, by service, prefix and target)
+	mode := r.Intn(6)
+	if mode == 0 {
+		u := rt.Universe{Services: svcs, Hosts: fam, Paths: rtPaths, Dsts: dsts, Tags: []string{"a", "b"},
+			Weights: rt.Small.Weights, Opts: [][]string{{"strip", "/foo"}, {"host", "dst"}, {"proto", "https"}}}
+		in.Defs = u.GenScript(r, n+6)
+		if in.Defs[0].Cmd != "add" {
+			in.Defs[0] = rt.Def{Cmd: "add", Service: r.Pick(svcs), Src: r.Pick(fam) + "/", Dst: r.Pick(dsts)}
+			if strings.HasPrefix(in.Defs[0].Src, ":") {
+				in.Defs[0].Src = strings.TrimSuffix(in.Defs[0].Src, "/")
 			}
 		}
-		d := rt.Def{Cmd: "add", Service: r.Pick(svcs), Src: src, Dst: r.Pick(dsts)}
-		if r.Chance(1, 6) {
-			d.WText = r.Pick([]string{"0.1", "0.5", "1"})
+		// a weight command that matches nothing fails the whole build: keep such scripts rare
+		if _, err := buildTable(in.Defs, false); err != nil && r.Chance(4, 5) {
+			var keep []rt.Def
+			for _, d := range in.Defs {
+				if d.Cmd != "weight" {
+					keep = append(keep, d)
+				}
+			}
+			in.Defs = keep
 		}
-		if r.Chance(1, 8) {
-			d.Tags = []string{r.Pick([]string{"a", "b"})}
+	} else {
+		for k := 0; k < n; k++ {
+			h := r.Pick(fam)
+			if k < len(fam) && r.Chance(1, 2) {
+				h = fam[k] // most hosts of the family get at least one route
+			}
+			src := h
+			if !strings.HasPrefix(h, ":") {
+				src = h + r.Pick(rtPaths)
+				if k < len(fam) && r.Chance(3, 4) {
+					src = h + "/"
+				}
+			}
+			d := rt.Def{Cmd: "add", Service: r.Pick(svcs), Src: src, Dst: r.Pick(dsts)}
+			if r.Chance(1, 6) {
+				d.WText = r.Pick([]string{"0.1", "0.5", "1"})
+			}
+			if r.Chance(1, 8) || (mode == 1 && r.Chance(3, 5)) {
+				d.Tags = []string{r.Pick([]string{"a", "b"})}
+				if r.Chance(1, 4) {
+					d.Tags = append(d.Tags, r.Pick([]string{"a", "b", "c"}))
+				}
+			}
+			d.Fill()
+			in.Defs = append(in.Defs, d)
 		}
-		d.Fill()
-		in.Defs = append(in.Defs, d)
-	}
-	if r.Chance(1, 8) && len(in.Defs) > 1 {
-		// a deletion, so that pruned hosts/routes occur
-		v := in.Defs[r.Intn(len(in.Defs))]
-		d := rt.Def{Cmd: "del", Service: v.Service}
-		if r.Chance(1, 2) {
-			d.Src = v.Src
+		ndel := 0
+		if mode == 1 {
+			ndel = 1 + r.Intn(3)
+		} else if r.Chance(1, 8) && len(in.Defs) > 1 {
+			ndel = 1
 		}
-		in.Defs = append(in.Defs, d)
+		nadd := len(in.Defs)
+		for ; ndel > 0; ndel-- {
+			v := in.Defs[r.Intn(nadd)]
+			d := rt.Def{Cmd: "del"}
+			switch r.Intn(6) {
+			case 0, 1: // by tags only
+				d.Tags = []string{r.Pick([]string{"a", "b"})}
+				if len(v.Tags) > 0 && r.Chance(1, 2) {
+					d.Tags = []string{v.Tags[0]}
+				}
+			case 2: // by service and tags
+				d.Service = v.Service
+				d.Tags = []string{r.Pick([]string{"a", "b"})}
+				if len(v.Tags) > 0 && r.Chance(2, 3) {
+					d.Tags = []string{v.Tags[0]}
+				}
+			case 3: // by service
+				d.Service = v.Service
+			case 4: // by service and prefix
+				d.Service, d.Src = v.Service, v.Src
+			default: // by service, prefix and target
+				d.Service, d.Src, d.Dst = v.Service, v.Src, v.Dst
+			}
+			in.Defs = append(in.Defs, d)
+		}
 	}
 	in.Text = r.Chance(1, 3)
 	in.TLS = r.Chance(1, 3)
 	in.Matcher = r.Pick(matchers)
 	in.NoGlob = r.Chance(1, 4)
 	// request: aim at one route of the table most of the time (its host key instantiated, its path extended)
-	v := in.Defs[r.Intn(len(in.Defs))]
+	var adds []rt.Def
+	for _, d := range in.Defs {
+		if d.Cmd == "add" && d.Src != "" {
+			adds = append(adds, d)
+		}
+	}
+	v := adds[r.Intn(len(adds))]
 	vh, vp := route.VerifHostpath(v.Src)
 	if r.Chance(6, 7) {
 		k := vh
@@ -304,7 +362,7 @@ func genLookup(r *hx.Rand, i int) interface{} {
 		in.Host = r.Pick(rqLabels) + r.Pick(rqPorts)
 	}
 	if r.Chance(1, 5) {
-		_, vp = route.VerifHostpath(in.Defs[r.Intn(len(in.Defs))].Src)
+		_, vp = route.VerifHostpath(adds[r.Intn(len(adds))].Src)
 	}
 	if r.Chance(7, 8) {
 		p := strings.NewReplacer("*", "x", "?", "y").Replace(vp)
